@@ -299,6 +299,8 @@ class DirectCollocation(SamplingMethod):
                 if value.is_column() and var.is_scalar(): value = value.T
                 for k in list(range(self.N))+[-1]:
                     target = self.eval_at_control(stage, var, k)
+                    if k==-1 and ca.is_equal(target, self.eval_at_control(stage, var, self.N-1)):
+                        continue # quantity of the last control interval: keep the value of its start time, not that of tf
                     value_k = value
                     if target.numel()*(self.N)==value.numel() or target.numel()*(self.N+1)==value.numel():
                         value_k = value[:,k]
